@@ -86,9 +86,11 @@ func init() {
 				"transport_exercised:http": 1, "transport_exercised:ws": 1,
 				"positive_control_signed": 4, // each single-transport opt-in must really sign on its transport
 				"default_env_checked":     1,
+				"endpoint_reopened":       6, // ws is rebuilt in every child
+
 			}
 		},
-		Exhaustive: func(tier string, counters map[string]int) bool { return tier == "thorough" },
+		Exhaustive:  func(tier string, counters map[string]int) bool { return tier == "thorough" },
 		AnchorFiles: []string{"/rpc/", "/node/", "/internal/aquaapi/", "/aqua/accounts/keystore/"},
 		Assumptions: []string{
 			"a signature made with a keystore key always passes through one of the six KeyStore signing methods instrumented by hook H1 (the only callers of crypto.Sign/types.SignTx with keystore keys)",
@@ -317,28 +319,32 @@ func run(c *fw.Ctx) {
 	} else {
 		c.CountN("pending_tx_seeded", n)
 	}
-	handlers := tn.stack.VerifHandlers()
 	exposed := map[string][]string{}
 	skipped := map[string]bool{}
 	general := envSet["UNSAFE_RPC_SIGNING"]
 	if len(env) == 0 {
 		c.Count("default_env_checked")
 	}
-	for _, tr := range transports {
-		h := handlers[tr]
+	sweep := func(tr, phase string) {
+		h := tn.stack.VerifHandlers()[tr]
 		if h == nil {
 			c.Inconclusive("transport_not_running:" + tr)
-			continue
+			return
 		}
 		optedIn := envSet[transportVar[tr]]
 		methods := h.VerifMethods()
 		signedHere := 0
 		for _, m := range methods {
 			full := m.Service + "_" + m.Method
-			exposed[tr] = append(exposed[tr], full)
+			if phase == "" {
+				exposed[tr] = append(exposed[tr], full)
+			}
 			if skipMethods[full] {
 				skipped[full] = true
 				continue
+			}
+			if phase != "" && !involvesAccount(m) {
+				continue // reopened endpoints: only the account-naming methods again
 			}
 			vs := tn.variants()
 			if !involvesAccount(m) {
@@ -353,7 +359,7 @@ func run(c *fw.Ctx) {
 					argStr[i] = string(raw)
 				}
 				rec := callRecord{Env: env, Transport: tr, Method: full, Variant: v.Name, Args: argStr}
-				id := fmt.Sprintf("%s/%s/%s", tr, full, v.Name)
+				id := fmt.Sprintf("%s%s/%s/%s", phase, tr, full, v.Name)
 				c.Case(id, rec, func() {
 					att0, prod0 := keystore.VerifSignCounters()
 					ctx, cancel := context.WithTimeout(context.Background(), 8*time.Second)
@@ -413,6 +419,22 @@ func run(c *fw.Ctx) {
 			c.Count("positive_control_failed:" + tr)
 			c.Inconclusive("positive_control_failed:" + tr)
 		}
+	}
+	for _, tr := range transports {
+		sweep(tr, "")
+	}
+	// Lifecycle phase: an endpoint that is torn down and built again in the same
+	// process goes through rpc.Server.RegisterName a second time; the per-transport
+	// filter must hold for that registration too (admin_stopWS/admin_startWS are
+	// reachable over the default IPC endpoint). The rebuilt server's account-naming
+	// methods are swept again.
+	if tn.reopen(c, "ws") {
+		c.Count("endpoint_reopened")
+		sweep("ws", "reopened/")
+	}
+	if tn.reopen(c, "http") {
+		c.Count("endpoint_reopened")
+		sweep("http", "reopened/")
 	}
 	for tr := range exposed {
 		sort.Strings(exposed[tr])
